@@ -42,19 +42,19 @@ package utils
 //@ define isMSM4(t) = t == 1074 || t == 1084 || t == 1094 || t == 1104 || t == 1114 || t == 1124 || t == 1134
 //@ define isMSM7(t) = t == 1077 || t == 1087 || t == 1097 || t == 1107 || t == 1117 || t == 1127 || t == 1137
 //@ define isMSM(t) = isMSM4(t) || isMSM7(t)
-//@ global[C04,C20] MSM4MessageTypes != nil && forallint(t, has(MSM4MessageTypes, t) == isMSM4(t))
-//@ global[C04,C20] MSM7MessageTypes != nil && forallint(t, has(MSM7MessageTypes, t) == isMSM7(t))
+//@ global[C04,C05,C20] MSM4MessageTypes != nil && forallint(t, has(MSM4MessageTypes, t) == isMSM4(t))
+//@ global[C04,C05,C20] MSM7MessageTypes != nil && forallint(t, has(MSM7MessageTypes, t) == isMSM7(t))
 //@ global[C06,C17] isUTC(LocationUTC)
 //@ global[C06,C17] GPSTimeOffset == 0 - 18000000000 && BeidouLeapSeconds == 0 - 4 && BeidouTimeOffset == 0 - 4000000000 && GlonassTimeOffset == 0 - 10800000000000
 
 //@ func MSM4
-//@ ensures[C04,C20] result == isMSM4(messageType)
+//@ ensures[C04,C05,C20] result == isMSM4(messageType)
 
 //@ func MSM7
-//@ ensures[C04,C20] result == isMSM7(messageType)
+//@ ensures[C04,C05,C20] result == isMSM7(messageType)
 
 //@ func MSM
-//@ ensures[C04,C20] result == isMSM(messageType)
+//@ ensures[C04,C05,C20] result == isMSM(messageType)
 
 // GetNumberOfSignalCells is checked in the context of each caller (inline), where the
 // cell size is a constant.
